@@ -65,17 +65,23 @@ IsCustom(k) == k \in {"cust_true", "cust_false", "cust_keyed", "cust_never"}
 Scripts == {"first", "last", "neg", "over", "err"}
 ScriptRet(sc, n) == CASE sc = "first" -> 0 [] sc = "last" -> n - 1 [] sc = "neg" -> -1 [] sc = "over" -> n [] sc = "err" -> -1
 
-\* input alphabet: [keyed, part (manual), sc (custom), want (hash, keyed: the index the key hashes to)]
-In(keyed, part, sc, want) == [keyed |-> keyed, part |-> part, sc |-> sc, want |-> want]
+\* input alphabet: [keyed (Key != nil), part (manual), sc (custom), want (hash, keyed: the index the key hashes to),
+\* ek: "-" or, for a key without bytes, its spelling "b" ByteEncoder([]byte{}) / "s" StringEncoder("") / "n" ByteEncoder(nil)]
+InE(keyed, part, sc, want, ek) == [keyed |-> keyed, part |-> part, sc |-> sc, want |-> want, ek |-> ek]
+In(keyed, part, sc, want) == InE(keyed, part, sc, want, "-")
+EmptySpellings == {"b", "s", "n"}
+\* where the hash partitioners put a key without bytes (FNV-1a of nothing) among n partitions
+EmptyIdx(n) == IF pk = "refhash" THEN Ref(FnvEmpty, n) ELSE Legacy(FnvEmpty, n)
 DynInputs ==      \* reduced alphabet of the Dynamic scenarios
   CASE pk = "manual" -> {In(TRUE, p, "-", -1) : p \in {0, np - 1}}
-    [] pk \in {"hash", "refhash"} -> {In(TRUE, 0, "-", w) : w \in {0, np - 1}} \cup {In(FALSE, 0, "-", -1)}
+    [] pk \in {"hash", "refhash"} -> {In(TRUE, 0, "-", w) : w \in {0, np - 1}} \cup {In(FALSE, 0, "-", -1), InE(TRUE, 0, "-", -1, "s")}
     [] pk \in {"roundrobin", "random"} -> {In(FALSE, 0, "-", -1)}
     [] OTHER -> {In(k, 0, sc, -1) : k \in BOOLEAN, sc \in {"first", "last"}}
 Inputs ==
   IF Dynamic THEN DynInputs ELSE
   CASE pk = "manual" -> {In(TRUE, p, "-", -1) : p \in -1 .. np} \cup {In(FALSE, np - 1, "-", -1)}
     [] pk \in {"hash", "refhash"} -> {In(TRUE, 0, "-", w) : w \in 0 .. (np - 1)} \cup {In(FALSE, 0, "-", -1)}
+                                     \cup {InE(TRUE, 0, "-", -1, e) : e \in EmptySpellings}
     [] pk \in {"roundrobin", "random"} -> {In(k, 0, "-", -1) : k \in BOOLEAN}
     [] OTHER -> {In(k, 0, sc, -1) : k \in BOOLEAN, sc \in Scripts}
 
@@ -103,7 +109,7 @@ PartitionMessage(m) ==
       \* choice: "any" for the random generator, otherwise an integer; perr: the partitioner returned an error
       anyc == pk = "random" \/ (pk \in {"hash", "refhash"} /\ ~m.keyed)
       c == CASE pk = "manual" -> m.part
-             [] pk \in {"hash", "refhash"} -> m.want
+             [] pk \in {"hash", "refhash"} -> IF m.ek # "-" /\ n > 0 THEN EmptyIdx(n) ELSE m.want
              [] pk = "roundrobin" -> rr
              [] IsCustom(pk) -> ScriptRet(m.sc, n)
              [] OTHER -> 0
@@ -199,7 +205,7 @@ SetSeq(S) == [k \in 1 .. Cardinality(S) |-> Nth(S, k - 1)]
 \* expected outcome; "any" when the generator chooses among partitions one of whose workers has its breaker open
 MayHitOpenBreaker(e) ==
   e.anyc /\ e.stage = "acked" /\ \E p \in Offered(np, e.Lat, Info(pk).static, Info(pk).dyn, e.in.keyed) : pperr[p] >= BreakerThreshold
-MsgJson(e) == [keyed |-> e.in.keyed, part |-> e.in.part, sc |-> e.in.sc, want |-> e.in.want,
+MsgJson(e) == [keyed |-> e.in.keyed, part |-> e.in.part, sc |-> e.in.sc, want |-> e.in.want, ek |-> e.in.ek,
                xn |-> e.n, xout |-> (IF MayHitOpenBreaker(e) THEN "any" ELSE e.out), xtarget |-> e.target, xwhy |-> e.why]
 Emit ==
   (EmitCases /\ (IF Dynamic THEN flipped /\ Len(msgs) = p1 + P2 ELSE Len(msgs) = MaxMsgs) /\ \A i \in DOMAIN msgs : Done(msgs[i])) =>
